@@ -91,6 +91,17 @@ CLAIMED = {
              "the plain ranges on networks without internal cycles (exact rank test).",
         technique="Lean 4 proof (formulation theorems over the verified LP layer) + certified differential testing of FVA ranges",
         design="DESIGN.md section 5, C05"),
+    "C09": dict(
+        engine="lp",
+        text="Lean 4: minimising sum(forward+reverse) over the split problem is minimising sum|v| and the optimal value is that total "
+             "(pfba_objective_is_total_flux); the two rows of add_absolute_expression say d >= |e - ref| and the smallest admissible d is the distance "
+             "(moma_rows_are_abs, moma_min_is_distance); the ROOM rows confine a flux to the tolerance band for y = 0 and are the flux bounds for y = 1 "
+             "(room_rows, room_linear_rows). Returned fluxes are checked for feasibility; reported objective values and the values recomputed from the "
+             "returned fluxes are compared with optima of the documented problems certified by the proved checker (ROOM: certified feasibility of a "
+             "minimal set of changed fluxes and certified infeasibility of every smaller set).",
+        note=LP_NOTE + " ROOM / linear ROOM need finite bounds; quadratic MOMA needs a QP solver that is not installed (linear MOMA only).",
+        technique="Lean 4 proof (formulation lemmas) + certified differential testing of pFBA / MOMA / ROOM optima",
+        design="DESIGN.md section 5, C09"),
 }
 
 PENDING_REASON = "check under construction in this session (see DESIGN.md section 9 build order); not claimed until its Lean model, theorems and correspondence exist"
@@ -129,7 +140,7 @@ def main():
              "kind_free_text": "Lean model DLM + theorems (lean/CobraModel/{Model,Lemmas,Props}) and op-sequence correspondence against cobra.core.DictList"},
             {"name": "core", "path": "harness/core_engine.py", "serves_properties": ["C01", "C02", "C03", "C07"],
              "kind_free_text": "Lean Core model (content + solver + undo stack as functions over ids), theorems in Props/C01,C02,C03,C07, traces on the real model with raw GLPK read-out"},
-            {"name": "lp", "path": "harness/lpcert.py", "serves_properties": ["C04", "C05"],
+            {"name": "lp", "path": "harness/lpcert.py", "serves_properties": ["C04", "C05", "C09"],
              "kind_free_text": "Lean LP model + proved certificate checker (Model/LP.lean, Lemmas/LP.lean), untrusted exact simplex, constructive FBA instance generator"},
             {"name": "gpr", "path": "harness/c08.py", "serves_properties": ["C08"],
              "kind_free_text": "Lean model GPRM (rule trees, parser, remover) + generated escape tables + correspondence against cobra.core.gene.GPR"},
